@@ -8,7 +8,10 @@
 // one of the enums makes this file stop compiling instead of passing silently.
 //
 // Contract style: the pre/postcondition pair sits on a thin wrapper `w_*` that
-// calls the real function; the harness is `proof_for_contract(w_*)`. Each
+// calls the real function; the harness is `proof_for_contract(w_*)`. The
+// vacuity guard `cover!` sits in the harness AFTER the wrapper call (so after
+// the `requires` assumption; inside the wrapper Kani's contract expansion
+// duplicates it and one copy is always UNREACHABLE). Each
 // `ensures` clause is wrapped in `ob("<obligation name>", cond)` so that the
 // failed-check description printed by Kani (the stringified closure) contains
 // the obligation name.
@@ -242,7 +245,6 @@ mod verif_c19_codecs {
     #[kani::ensures(|r: &SegmentSelector| ob("C19.SegmentSelector.new.rpl_roundtrip", r.rpl() == rpl))]
     #[kani::ensures(|r: &SegmentSelector| ob("C19.SegmentSelector.new.ti_clear", r.0 & 0b100 == 0))]
     fn w_selector_new(index: u16, rpl: PrivilegeLevel) -> SegmentSelector {
-        kani::cover!(true, "c19_selector_new: reachable");
         SegmentSelector::new(index, rpl)
     }
 
@@ -254,13 +256,13 @@ mod verif_c19_codecs {
     fn c19_selector_new() {
         let index: u16 = kani::any();
         w_selector_new(index, any_pl());
+        kani::cover!(true, "c19_selector_new: reachable");
     }
 
     /// Field readers on an arbitrary raw selector (all 65536 values): never panic.
     #[kani::ensures(|r: &(u16, PrivilegeLevel)| ob("C19.SegmentSelector.index.reads_bits_3_15", r.0 == raw >> 3))]
     #[kani::ensures(|r: &(u16, PrivilegeLevel)| ob("C19.SegmentSelector.rpl.reads_bits_0_1", pl_num(r.1) == raw & 0b11))]
     fn w_selector_read(raw: u16) -> (u16, PrivilegeLevel) {
-        kani::cover!(true, "c19_selector_read: reachable");
         let s = SegmentSelector(raw);
         (s.index(), s.rpl())
     }
@@ -270,6 +272,7 @@ mod verif_c19_codecs {
     #[kani::proof_for_contract(w_selector_read)]
     fn c19_selector_read() {
         w_selector_read(kani::any());
+        kani::cover!(true, "c19_selector_read: reachable");
     }
 
     // Plain proof (PLAIN-1): as a contract this takes 20 s, as a plain proof 0.1 s; see C19_NOTES.md.
@@ -291,7 +294,6 @@ mod verif_c19_codecs {
     #[kani::requires(value < 4)]
     #[kani::ensures(|r: &PrivilegeLevel| ob("C19.PrivilegeLevel.from_u16.accepts", pl_num(*r) == value && (*r as u16) == value))]
     fn w_privilege_from_u16(value: u16) -> PrivilegeLevel {
-        kani::cover!(true, "c19_privilege_from_u16_accepts: reachable");
         PrivilegeLevel::from_u16(value)
     }
 
@@ -299,6 +301,7 @@ mod verif_c19_codecs {
     #[kani::proof_for_contract(w_privilege_from_u16)]
     fn c19_privilege_from_u16_accepts() {
         w_privilege_from_u16(kani::any());
+        kani::cover!(true, "c19_privilege_from_u16_accepts: reachable");
     }
 
     //@ obligation C19 C19.PrivilegeLevel.from_u16.rejects
@@ -319,7 +322,6 @@ mod verif_c19_codecs {
     #[kani::ensures(|r: &Option<DebugAddressRegisterNumber>| ob("C19.DebugAddressRegisterNumber.new.roundtrip",
         match r { Some(d) => drn_num(*d) == n && d.get() == n, None => true }))]
     fn w_drn_new(n: u8) -> Option<DebugAddressRegisterNumber> {
-        kani::cover!(true, "c19_drn_new: reachable");
         DebugAddressRegisterNumber::new(n)
     }
 
@@ -328,11 +330,11 @@ mod verif_c19_codecs {
     #[kani::proof_for_contract(w_drn_new)]
     fn c19_drn_new() {
         w_drn_new(kani::any());
+        kani::cover!(true, "c19_drn_new: reachable");
     }
 
     #[kani::ensures(|r: &Option<DebugAddressRegisterNumber>| ob("C19.DebugAddressRegisterNumber.get.inverse", *r == Some(d)))]
     fn w_drn_get(d: DebugAddressRegisterNumber) -> Option<DebugAddressRegisterNumber> {
-        kani::cover!(true, "c19_drn_get_inverse: reachable");
         DebugAddressRegisterNumber::new(d.get())
     }
 
@@ -340,6 +342,7 @@ mod verif_c19_codecs {
     #[kani::proof_for_contract(w_drn_get)]
     fn c19_drn_get_inverse() {
         w_drn_get(any_drn());
+        kani::cover!(true, "c19_drn_get_inverse: reachable");
     }
 
     // ================== BreakpointCondition / BreakpointSize ===================
@@ -348,7 +351,6 @@ mod verif_c19_codecs {
     #[kani::ensures(|r: &Option<BreakpointCondition>| ob("C19.BreakpointCondition.from_bits.decodes",
         match r { Some(c) => cond_num(*c) == bits, None => true }))]
     fn w_cond_from_bits(bits: u64) -> Option<BreakpointCondition> {
-        kani::cover!(true, "c19_cond_from_bits: reachable");
         BreakpointCondition::from_bits(bits)
     }
 
@@ -357,11 +359,11 @@ mod verif_c19_codecs {
     #[kani::proof_for_contract(w_cond_from_bits)]
     fn c19_cond_from_bits() {
         w_cond_from_bits(kani::any());
+        kani::cover!(true, "c19_cond_from_bits: reachable");
     }
 
     #[kani::ensures(|r: &Option<BreakpointCondition>| ob("C19.BreakpointCondition.roundtrip", *r == Some(c)))]
     fn w_cond_roundtrip(c: BreakpointCondition) -> Option<BreakpointCondition> {
-        kani::cover!(true, "c19_cond_roundtrip: reachable");
         BreakpointCondition::from_bits(c as u64)
     }
 
@@ -369,13 +371,13 @@ mod verif_c19_codecs {
     #[kani::proof_for_contract(w_cond_roundtrip)]
     fn c19_cond_roundtrip() {
         w_cond_roundtrip(any_cond());
+        kani::cover!(true, "c19_cond_roundtrip: reachable");
     }
 
     #[kani::ensures(|r: &Option<BreakpointSize>| ob("C19.BreakpointSize.from_bits.accepts_iff_lt_4", r.is_some() == (bits < 4)))]
     #[kani::ensures(|r: &Option<BreakpointSize>| ob("C19.BreakpointSize.from_bits.decodes",
         match r { Some(s) => size_num(*s) == bits, None => true }))]
     fn w_size_from_bits(bits: u64) -> Option<BreakpointSize> {
-        kani::cover!(true, "c19_size_from_bits: reachable");
         BreakpointSize::from_bits(bits)
     }
 
@@ -384,6 +386,7 @@ mod verif_c19_codecs {
     #[kani::proof_for_contract(w_size_from_bits)]
     fn c19_size_from_bits() {
         w_size_from_bits(kani::any());
+        kani::cover!(true, "c19_size_from_bits: reachable");
     }
 
     #[kani::ensures(|r: &Option<BreakpointSize>| ob("C19.BreakpointSize.new.accepts_iff_1_2_4_8",
@@ -391,7 +394,6 @@ mod verif_c19_codecs {
     #[kani::ensures(|r: &Option<BreakpointSize>| ob("C19.BreakpointSize.new.decodes",
         match r { Some(s) => size_bytes(*s) == size, None => true }))]
     fn w_size_new(size: usize) -> Option<BreakpointSize> {
-        kani::cover!(true, "c19_size_new: reachable");
         BreakpointSize::new(size)
     }
 
@@ -400,12 +402,12 @@ mod verif_c19_codecs {
     #[kani::proof_for_contract(w_size_new)]
     fn c19_size_new() {
         w_size_new(kani::any());
+        kani::cover!(true, "c19_size_new: reachable");
     }
 
     #[kani::ensures(|r: &(Option<BreakpointSize>, Option<BreakpointSize>)| ob("C19.BreakpointSize.roundtrip",
         r.0 == Some(s) && r.1 == Some(s)))]
     fn w_size_roundtrip(s: BreakpointSize) -> (Option<BreakpointSize>, Option<BreakpointSize>) {
-        kani::cover!(true, "c19_size_roundtrip: reachable");
         (BreakpointSize::from_bits(s as u64), BreakpointSize::new(size_bytes(s)))
     }
 
@@ -413,6 +415,7 @@ mod verif_c19_codecs {
     #[kani::proof_for_contract(w_size_roundtrip)]
     fn c19_size_roundtrip() {
         w_size_roundtrip(any_size());
+        kani::cover!(true, "c19_size_roundtrip: reachable");
     }
 
     // ================================ Dr7Value =================================
@@ -423,7 +426,6 @@ mod verif_c19_codecs {
     #[kani::ensures(|r: &Option<Dr7Value>| ob("C19.Dr7Value.from_bits.roundtrip",
         match r { Some(v) => v.bits() == bits, None => true }))]
     fn w_dr7_from_bits(bits: u64) -> Option<Dr7Value> {
-        kani::cover!(true, "c19_dr7_from_bits: reachable");
         Dr7Value::from_bits(bits)
     }
 
@@ -432,11 +434,11 @@ mod verif_c19_codecs {
     #[kani::proof_for_contract(w_dr7_from_bits)]
     fn c19_dr7_from_bits() {
         w_dr7_from_bits(kani::any());
+        kani::cover!(true, "c19_dr7_from_bits: reachable");
     }
 
     #[kani::ensures(|r: &u64| ob("C19.Dr7Value.from_bits_truncate.keeps_defined_bits", *r == bits & DR7_DEFINED))]
     fn w_dr7_from_bits_truncate(bits: u64) -> u64 {
-        kani::cover!(true, "c19_dr7_from_bits_truncate: reachable");
         Dr7Value::from_bits_truncate(bits).bits()
     }
 
@@ -444,6 +446,7 @@ mod verif_c19_codecs {
     #[kani::proof_for_contract(w_dr7_from_bits_truncate)]
     fn c19_dr7_from_bits_truncate() {
         w_dr7_from_bits_truncate(kani::any());
+        kani::cover!(true, "c19_dr7_from_bits_truncate: reachable");
     }
 
     #[kani::ensures(|r: &Option<Dr7Flags>| ob("C19.Dr7Flags.from_bits.accepts_iff_flag_bits_only",
@@ -451,7 +454,6 @@ mod verif_c19_codecs {
     #[kani::ensures(|r: &Option<Dr7Flags>| ob("C19.Dr7Flags.from_bits.roundtrip",
         match r { Some(f) => f.bits() == bits, None => true }))]
     fn w_dr7flags_from_bits(bits: u64) -> Option<Dr7Flags> {
-        kani::cover!(true, "c19_dr7flags_from_bits: reachable");
         Dr7Flags::from_bits(bits)
     }
 
@@ -460,6 +462,7 @@ mod verif_c19_codecs {
     #[kani::proof_for_contract(w_dr7flags_from_bits)]
     fn c19_dr7flags_from_bits() {
         w_dr7flags_from_bits(kani::any());
+        kani::cover!(true, "c19_dr7flags_from_bits: reachable");
     }
 
     /// Readers, over ALL 2^64 raw values (also ones `from_bits` would reject): no panic, exact field.
@@ -569,7 +572,6 @@ mod verif_c19_codecs {
     #[kani::ensures(|r: &(u64, u64, u64)| ob("C19.Dr7Flags.global_breakpoint_enable.bit_2n_plus_1", r.1 == 1u64 << (2 * drn_num(n) as u64 + 1)))]
     #[kani::ensures(|r: &(u64, u64, u64)| ob("C19.Dr6Flags.trap.bit_n", r.2 == 1u64 << drn_num(n) as u64))]
     fn w_dr_per_register_flags(n: DebugAddressRegisterNumber) -> (u64, u64, u64) {
-        kani::cover!(true, "c19_dr_per_register_flags: reachable");
         (
             Dr7Flags::local_breakpoint_enable(n).bits(),
             Dr7Flags::global_breakpoint_enable(n).bits(),
@@ -583,6 +585,7 @@ mod verif_c19_codecs {
     #[kani::proof_for_contract(w_dr_per_register_flags)]
     fn c19_dr_per_register_flags() {
         w_dr_per_register_flags(any_drn());
+        kani::cover!(true, "c19_dr_per_register_flags: reachable");
     }
 
     // ================================== Pcid ===================================
@@ -591,7 +594,6 @@ mod verif_c19_codecs {
     #[kani::ensures(|r: &Option<u16>| ob("C19.Pcid.new.accepts_iff_lt_4096", r.is_some() == (pcid < 4096)))]
     #[kani::ensures(|r: &Option<u16>| ob("C19.Pcid.new.roundtrip", match r { Some(v) => *v == pcid, None => true }))]
     fn w_pcid_new(pcid: u16) -> Option<u16> {
-        kani::cover!(true, "c19_pcid_new: reachable");
         match Pcid::new(pcid) {
             Ok(p) => Some(p.value()),
             Err(_) => None,
@@ -603,6 +605,7 @@ mod verif_c19_codecs {
     #[kani::proof_for_contract(w_pcid_new)]
     fn c19_pcid_new() {
         w_pcid_new(kani::any());
+        kani::cover!(true, "c19_pcid_new: reachable");
     }
 
     // ============================= ExceptionVector =============================
@@ -611,7 +614,6 @@ mod verif_c19_codecs {
     #[kani::ensures(|r: &Option<ExceptionVector>| ob("C19.ExceptionVector.try_from.inverse_of_discriminant",
         match r { Some(v) => ev_num(*v) == n && (*v as u8) == n, None => true }))]
     fn w_ev_try_from(n: u8) -> Option<ExceptionVector> {
-        kani::cover!(true, "c19_ev_try_from: reachable");
         ExceptionVector::try_from(n).ok()
     }
 
@@ -620,11 +622,11 @@ mod verif_c19_codecs {
     #[kani::proof_for_contract(w_ev_try_from)]
     fn c19_ev_try_from() {
         w_ev_try_from(kani::any());
+        kani::cover!(true, "c19_ev_try_from: reachable");
     }
 
     #[kani::ensures(|r: &Option<ExceptionVector>| ob("C19.ExceptionVector.roundtrip", *r == Some(v)))]
     fn w_ev_roundtrip(v: ExceptionVector) -> Option<ExceptionVector> {
-        kani::cover!(true, "c19_ev_roundtrip: reachable");
         ExceptionVector::try_from(v as u8).ok()
     }
 
@@ -632,6 +634,7 @@ mod verif_c19_codecs {
     #[kani::proof_for_contract(w_ev_roundtrip)]
     fn c19_ev_roundtrip() {
         w_ev_roundtrip(any_ev());
+        kani::cover!(true, "c19_ev_roundtrip: reachable");
     }
 
     // ============================== PatMemoryType ==============================
@@ -641,7 +644,6 @@ mod verif_c19_codecs {
     #[kani::ensures(|r: &Option<PatMemoryType>| ob("C19.PatMemoryType.from_bits.decodes",
         match r { Some(t) => pat_num(*t) == bits && t.bits() == bits, None => true }))]
     fn w_pat_from_bits(bits: u8) -> Option<PatMemoryType> {
-        kani::cover!(true, "c19_pat_from_bits: reachable");
         PatMemoryType::from_bits(bits)
     }
 
@@ -650,11 +652,11 @@ mod verif_c19_codecs {
     #[kani::proof_for_contract(w_pat_from_bits)]
     fn c19_pat_from_bits() {
         w_pat_from_bits(kani::any());
+        kani::cover!(true, "c19_pat_from_bits: reachable");
     }
 
     #[kani::ensures(|r: &(u8, Option<PatMemoryType>)| ob("C19.PatMemoryType.roundtrip", r.0 == pat_num(t) && r.1 == Some(t)))]
     fn w_pat_roundtrip(t: PatMemoryType) -> (u8, Option<PatMemoryType>) {
-        kani::cover!(true, "c19_pat_roundtrip: reachable");
         (t.bits(), PatMemoryType::from_bits(t.bits()))
     }
 
@@ -662,6 +664,7 @@ mod verif_c19_codecs {
     #[kani::proof_for_contract(w_pat_roundtrip)]
     fn c19_pat_roundtrip() {
         w_pat_roundtrip(any_pat());
+        kani::cover!(true, "c19_pat_roundtrip: reachable");
     }
 
     // ============================ SelectorErrorCode ============================
@@ -704,7 +707,6 @@ mod verif_c19_codecs {
         r.0 == (value & 1 == 1) && r.1 == table_of((value >> 1) & 0b11)
             && r.2 == (value >> 3) & 0x1FFF && r.3 == (value & 0xFFFF == 0)))]
     fn w_selector_error_code_new_truncate(value: u64) -> (bool, DescriptorTable, u64, bool) {
-        kani::cover!(true, "c19_selector_error_code_new_truncate: reachable");
         let e = SelectorErrorCode::new_truncate(value);
         (e.external(), e.descriptor_table(), e.index(), e.is_null())
     }
@@ -713,5 +715,6 @@ mod verif_c19_codecs {
     #[kani::proof_for_contract(w_selector_error_code_new_truncate)]
     fn c19_selector_error_code_new_truncate() {
         w_selector_error_code_new_truncate(kani::any());
+        kani::cover!(true, "c19_selector_error_code_new_truncate: reachable");
     }
 }
